@@ -470,9 +470,21 @@ def check_pure(ctx, eff: Effects, res: Result, dotted: str, roots=("self",), con
 
 def check_deepcopy(ctx, res: Result, dotted: str, rule="E-FRESHCOPY"):
     fi = ctx.require(dotted)
+    v = ctx.view(fi)
     rets = [n for n in walk_no_nested(fi.node) if isinstance(n, ast.Return) and n.value is not None]
-    ok = bool(rets) and all(isinstance(r.value, ast.Call) and norm(r.value.func) in ("copy.deepcopy", "deepcopy") and len(r.value.args) == 1 and isinstance(r.value.args[0], ast.Name) and r.value.args[0].id == "self" for r in rets)
-    res.check(ok, rule, fi.short, norm(rets[0]) if rets else "return", "deep", "copy() does not return copy.deepcopy(self): tables / metadata dicts are shared between the copy and the original", loc(fi, rets[0] if rets else fi.node))
+    if not rets:
+        res.violation(rule, fi.short, "return", "deep", "copy() returns nothing", loc(fi, fi.node))
+        return
+    for r in rets:
+        e = v.resolve(r.value)
+        deep = isinstance(e, ast.Call) and norm(e.func) in ("copy.deepcopy", "deepcopy") and len(e.args) >= 1 and isinstance(e.args[0], ast.Name) and e.args[0].id == "self"
+        shallow = (isinstance(e, ast.Call) and norm(e.func) in ("copy.copy", "copy")) or (isinstance(e, ast.Name) and e.id == "self")
+        if deep:
+            res.ok(rule, fi.short, norm(r), "deep", loc(fi, r))
+        elif shallow:
+            res.violation(rule, fi.short, norm(r), "deep", "copy() does not return copy.deepcopy(self): tables / metadata dicts are shared between the copy and the original", loc(fi, r))
+        else:
+            res.unknown(rule, fi.short, norm(r), "deep", "the returned object is not recognised as copy.deepcopy(self)", loc(fi, r))
 
 
 def check_shared_literals(ctx, res: Result, dotted: str, rule="E-SHARED"):
